@@ -1,6 +1,7 @@
 package rt
 
 import (
+	"errors"
 	"bufio"
 	"bytes"
 	"fmt"
@@ -44,6 +45,9 @@ type RespPlan struct {
 	Gate        chan struct{}
 	Sleep       time.Duration
 	Panic       bool
+	// ReadErrAfter > 0: the body reader (Stream 1 or 2) fails with an error once this many bytes have been handed out
+	// (counted from 1: 1 = fails on the first Read) — the handler's side of the response goes wrong mid-way
+	ReadErrAfter int
 }
 
 type chunkReader struct {
@@ -51,9 +55,17 @@ type chunkReader struct {
 	chunk       int
 	eofWithLast bool
 	closed      *atomic.Bool
+	errAfter    int // > 0: fail once errAfter-1 bytes have been handed out
+	given       int
 }
 
+// ErrBodyReader is what a response body reader planned to fail returns.
+var ErrBodyReader = errors.New("scenario: the response body reader failed")
+
 func (c *chunkReader) Read(p []byte) (int, error) {
+	if c.errAfter > 0 && c.given >= c.errAfter-1 {
+		return 0, ErrBodyReader
+	}
 	if len(c.b) == 0 {
 		return 0, io.EOF
 	}
@@ -61,6 +73,10 @@ func (c *chunkReader) Read(p []byte) (int, error) {
 	if c.chunk > 0 && n > c.chunk {
 		n = c.chunk
 	}
+	if c.errAfter > 0 && c.given+n > c.errAfter-1 {
+		n = c.errAfter - 1 - c.given
+	}
+	c.given += n
 	n = copy(p[:n], c.b)
 	c.b = c.b[n:]
 	if len(c.b) == 0 && c.eofWithLast {
@@ -207,9 +223,9 @@ func (h *Harness) Handle(ctx *fasthttp.RequestCtx) {
 	case 0:
 		ctx.Response.SetBody(plan.Body)
 	case 1:
-		ctx.Response.SetBodyStream(&chunkReader{b: plan.Body, chunk: plan.ReadChunk, eofWithLast: plan.EOFWithLast}, len(plan.Body))
+		ctx.Response.SetBodyStream(&chunkReader{b: plan.Body, chunk: plan.ReadChunk, eofWithLast: plan.EOFWithLast, errAfter: plan.ReadErrAfter}, len(plan.Body))
 	case 2:
-		ctx.Response.SetBodyStream(&chunkReader{b: plan.Body, chunk: plan.ReadChunk, eofWithLast: plan.EOFWithLast}, -1)
+		ctx.Response.SetBodyStream(&chunkReader{b: plan.Body, chunk: plan.ReadChunk, eofWithLast: plan.EOFWithLast, errAfter: plan.ReadErrAfter}, -1)
 	case 3:
 		body, chunk := plan.Body, plan.ReadChunk
 		if chunk <= 0 {
